@@ -3,6 +3,8 @@ from __future__ import annotations
 
 import itertools
 
+import numpy
+
 from harness import common as C
 
 PROPERTY = "C08"
@@ -161,10 +163,16 @@ def run(ctx):
             ops = [("v + w", lambda a, b, k: a + b, False), ("v - w", lambda a, b, k: a - b, False), ("v * k", lambda a, b, k: a * k, False),
                    ("k * v", lambda a, b, k: k * a, False), ("v / k", lambda a, b, k: a / k, False), ("-v", lambda a, b, k: -a, False),
                    ("+v", lambda a, b, k: +a, False), ("abs(v)", lambda a, b, k: abs(a), False), ("v ** 2", lambda a, b, k: a ** 2, False),
+                   ("numpy.absolute(v)", lambda a, b, k: numpy.absolute(a), False), ("numpy.square(v)", lambda a, b, k: numpy.square(a), False),
+                   ("numpy.sqrt(v)", lambda a, b, k: numpy.sqrt(a), False), ("numpy.cbrt(v)", lambda a, b, k: numpy.cbrt(a), False),
+                   ("numpy.power(v, 3)", lambda a, b, k: numpy.power(a, 3), False), ("numpy.add(v, w)", lambda a, b, k: numpy.add(a, b), False),
+                   ("numpy.subtract(v, w)", lambda a, b, k: numpy.subtract(a, b), False), ("numpy.multiply(v, k)", lambda a, b, k: numpy.multiply(a, k), False),
+                   ("numpy.true_divide(v, k)", lambda a, b, k: numpy.true_divide(a, k), False), ("numpy.negative(v)", lambda a, b, k: numpy.negative(a), False),
+                   ("numpy.matmul(v, w)", lambda a, b, k: numpy.matmul(a, b), False), ("v @ w", lambda a, b, k: a @ b, False),
                    ("v += w", lambda a, b, k: a.__iadd__(b), True), ("v -= w", lambda a, b, k: a.__isub__(b), True),
                    ("v *= k", lambda a, b, k: a.__imul__(k), True), ("v /= k", lambda a, b, k: a.__itruediv__(k), True)]
             for name, f, inplace in ops:
-                if sig[-1] == "tau" and name in ("v - w", "v -= w", "-v"):
+                if sig[-1] == "tau" and name in ("v - w", "v -= w", "-v", "numpy.subtract(v, w)", "numpy.negative(v)"):
                     continue            # exact result not representable with tau >= 0
                 n += 1
                 try:
